@@ -59,3 +59,78 @@ def trial_for(tc, ip):
 def first_bad(err, tol):
     bad = np.nonzero(~(err <= tol))[0]
     return int(bad[0]) if bad.size else None
+
+
+# ----------------------------------------------------------------------------- Hamiltonian alphabets
+def ham_alphabet(n, seed, spin_dep, thorough, slots=2):
+    """Finite basis of Hamiltonians deciding  E = h0 + lin(h1) + quad(chol):
+    zero, h0 = 1, every symmetric unit of h1 (per spin when spin_dep), every symmetric unit of one
+    Cholesky matrix, all pair sums (polarisation), unit pairs in different Cholesky slots (additivity
+    over g), h1-unit x chol-unit crosses, and dense seeded members.  Always `slots` Cholesky matrices so
+    one compilation serves all.  Returns list of (label, h0, h1[2,n,n], chol[slots,n,n])."""
+    Z = np.zeros((n, n))
+    zc = np.zeros((slots, n, n))
+    B = al.sym_basis(n)
+    out = [("zero", 0.0, np.array([Z, Z]), zc.copy()), ("h0", 1.0, np.array([Z, Z]), zc.copy())]
+    for (p, q), M in B:
+        out.append(("h1[%d%d]" % (p, q), 0.0, np.array([M, M]), zc.copy()))
+        if spin_dep:
+            out.append(("h1a[%d%d]" % (p, q), 0.0, np.array([M, Z]), zc.copy()))
+            out.append(("h1b[%d%d]" % (p, q), 0.0, np.array([Z, M]), zc.copy()))
+    for (p, q), M in B:
+        c = zc.copy()
+        c[0] = M
+        out.append(("chol[%d%d]" % (p, q), 0.0, np.array([Z, Z]), c))
+    for i, ((p, q), M) in enumerate(B):
+        for (r, s), M2 in B[i + 1:]:
+            c = zc.copy()
+            c[0] = M + M2
+            out.append(("cholsum[%d%d+%d%d]" % (p, q, r, s), 0.0, np.array([Z, Z]), c))
+            if slots > 1:
+                c = zc.copy()
+                c[0], c[1] = M, M2
+                out.append(("cholslots[%d%d|%d%d]" % (p, q, r, s), 0.0, np.array([Z, Z]), c))
+    if thorough:
+        for (p, q), M in B:
+            for (r, s), M2 in B:
+                c = zc.copy()
+                c[slots - 1] = M2
+                out.append(("cross[h%d%d,c%d%d]" % (p, q, r, s), 0.0, np.array([M, M]), c))
+    for k in range(2 if thorough else 1):
+        h0, h1, chol = al.small_ham(n, slots, seed + 5 * k, spin_dependent=spin_dep, scale=0.5)
+        out.append(("dense%d" % k, h0, h1, chol))
+    return out
+
+
+def ham_class(label):
+    return label.split("[")[0].rstrip("0123456789") if label.startswith("dense") else label.split("[")[0]
+
+
+def build_ham_data(n, h0, h1, chol, trial, wave_data):
+    """ham_data with measurement intermediates built only through the public hamiltonian handler."""
+    jnp, _ = trials.lib()
+    from ad_afqmc import hamiltonian
+
+    ham = hamiltonian.hamiltonian(n)
+    hd = {"h0": h0, "h1": jnp.asarray(np.asarray(h1, dtype=float)),
+          "chol": jnp.asarray(np.asarray(chol, dtype=float).reshape(len(chol), n * n)), "ene0": 0.0}
+    return ham.build_measurement_intermediates(hd, trial, wave_data)
+
+
+# ----------------------------------------------------------------------------- jitted call cache
+_JIT = {}
+
+
+def jitted(trial, name, in_axes=None):
+    """jax.jit of a trial method (optionally vmapped), cached per (trial, method, in_axes).  Eager calls of
+    the library's scan-based batched routines re-trace and re-compile on every call; the checks therefore call
+    them through one jit per static configuration (plus one eager call per configuration for the plain API)."""
+    import jax
+
+    key = (trial, name, in_axes)
+    if key not in _JIT:
+        meth = getattr(trial, name)
+        if in_axes is not None:
+            meth = jax.vmap(meth, in_axes=in_axes)
+        _JIT[key] = jax.jit(lambda *a: meth(*a))
+    return _JIT[key]
